@@ -176,6 +176,19 @@ CHECKS["C13"] = dict(
          "python families; the statement loop is abstracted to its visit bound (its order is C06's business); bottom-up phase: at most one push per method.",
     design_ref="5/C13", engine="Scheduler")
 
+CHECKS["C07"] = dict(
+    category="model_checking",
+    technique="GIRMachine (executable TLA+ semantics of GIR) run by TLC on the GIR of call-graph projects, recording every call as (caller, call statement, callee); each behaviour is judged by TLC against the same run's call_paths_p3 and the frames the top-down scheduler pushed (recorded by run-time wrapping)",
+    text="Call kind (direct, constructor, method, inherited through 2 and 3 levels, overriding, self-call of an inherited method, callback, nested callback, returned "
+         "function, function stored in a field / list / dict / variable, closure, nested definition, cross-module by from-import, alias, class, chain and inherited) x "
+         "calling context (top level, function, configured entry, branch on an unknown condition, loops, recursion, mutual recursion, two call sites), plus projects "
+         "with 3 and 5 entry points converging on one deep call site. The machine executes all units of the project in one case (branches on choice() are "
+         "separate behaviours); every call triple must be an element of a path of call_paths_p3 that starts at the entry in use, and a frame for the callee must "
+         "have been pushed under that call site while that entry was analysed.",
+    note="Python frontend; the semantics is the one C01 validates against CPython, extended here with inheritance lookup, aliased from-imports and a start method by id; "
+         "functions returned by value are a listed known finding (C07-F1).",
+    design_ref="5/C07", engine="GIRMachine")
+
 NOT_YET = {
 }
 
@@ -186,8 +199,8 @@ ENGINES = [
          serves_properties=["C11"], kind_free_text="TLA+ rule-match predicate and taint closure, TLC as fixpoint engine over recorded runs"),
     dict(name="EntryPoints", path="specs/EntryPoints.tla harness/c20.py harness/c20_post.py",
          serves_properties=["C20"], kind_free_text="TLA+ contract + operational model + trace validation of runs, TLC"),
-    dict(name="GIRMachine", path="specs/GIRMachine.tla harness/c01.py harness/c02.py harness/pygen.py harness/coregen.py harness/girjson.py harness/lianrun.py",
-         serves_properties=["C01", "C02", "C10"], kind_free_text="executable TLA+ operational semantics of GIR, TLC as interpreter"),
+    dict(name="GIRMachine", path="specs/GIRMachine.tla harness/c01.py harness/c02.py harness/c07.py harness/c10.py harness/pygen.py harness/coregen.py harness/callgen.py harness/taintgen.py harness/schedtrace.py harness/girjson.py harness/lianrun.py",
+         serves_properties=["C01", "C02", "C07", "C10"], kind_free_text="executable TLA+ operational semantics of GIR, TLC as interpreter"),
     dict(name="Pipeline", path="specs/Pipeline.tla harness/c14.py harness/c14_digest.py",
          serves_properties=["C14"], kind_free_text="deterministic TLA+ spec as trace validator + differential runs"),
     dict(name="GIRControl", path="specs/GIRControl.tla specs/ReachingDefs.tla harness/c04.py harness/c06.py harness/skeleton.py harness/girjson.py harness/lianrun.py",
